@@ -62,9 +62,15 @@ func verifInboundQuery(v *verifSrv, group int, tidLens []int, src *net.UDPAddr) 
 	case verifGroupLookup:
 		q.m.Q = []string{"find_node", "get_peers", "get"}[verifChoice(0, 2)]
 		if a != nil {
-			a.InfoHash = verifPeerID(v.id, []int{0, 9}, true)
-			a.Target = verifPeerID(v.id, []int{0}, false)
-			a.Want = verifWant()
+			if v.lean {
+				a.InfoHash = verifPeerID(v.id, []int{0}, true)
+				a.Target = a.InfoHash
+				a.Want = [][]krpc.Want{nil, {krpc.WantNodes, krpc.WantNodes6}}[verifChoice(0, 1)]
+			} else {
+				a.InfoHash = verifPeerID(v.id, []int{0, 9}, true)
+				a.Target = verifPeerID(v.id, []int{0}, false)
+				a.Want = verifWant()
+			}
 			if q.m.Q == "get" && verifNondetBool() {
 				sq := verifNondetI64()
 				a.Seq = &sq
